@@ -11,6 +11,7 @@ import GooseVerif.Model.Tr
 import GooseVerif.Model.Scope
 import GooseVerif.Model.Core
 import GooseVerif.Model.Heap
+import GooseVerif.Model.Coll
 import GooseVerif.Model.Conc
 
 def main (args : List String) : IO UInt32 := do
@@ -37,6 +38,9 @@ def main (args : List String) : IO UInt32 := do
   | ["concxa"] => Driver.lineLoop (fun (_ : Unit) ws => ((), GooseVerif.Model.Conc.runExplore 3 ws)) (); return 0
   | ["conct"] => Driver.lineLoop (fun (_ : Unit) ws => ((), GooseVerif.Model.Conc.runExploreT .strict ws)) (); return 0
   | ["conctp"] => Driver.lineLoop (fun (_ : Unit) ws => ((), GooseVerif.Model.Conc.runExploreT .perennial ws)) (); return 0
+  | ["coll"] => Driver.lineLoop (fun (_ : Unit) ws => ((), GooseVerif.Model.Coll.run ws)) (); return 0
+  | ["collgo"] => Driver.lineLoop (fun (_ : Unit) ws => ((), GooseVerif.Model.Coll.runGoToks ws)) (); return 0
+  | ["collt"] => Driver.lineLoop (fun (_ : Unit) ws => ((), GooseVerif.Model.Coll.runTToks ws)) (); return 0
   | ["core"] => Driver.lineLoop (fun (_ : Unit) ws => ((), GooseVerif.Model.Core.run ws)) (); return 0
   | ["corego"] => Driver.lineLoop (fun (_ : Unit) ws => ((), GooseVerif.Model.Core.runGoToks ws)) (); return 0
   | ["corewf"] => Driver.lineLoop (fun (_ : Unit) ws => ((), GooseVerif.Model.Core.runWf ws)) (); return 0
